@@ -1,6 +1,6 @@
 (* C09 Fee exactness: configured rate at entry, half-up rounding, pro-rata thereafter. *)
 From ATS Require Import Prelude Dec DecFacts Uuid Semver Types Contract Tactics Spec Inv InvAsk InstProofs AskProofs
-  BidFacts InvBid InvStep ExitProofs Ledger MatchProofs.
+  BidFacts DivFacts ProRata InvBid InvStep ExitProofs Ledger MatchProofs.
 
 (* (i)+(ii) both fees are rate_fee rate amount = round_half_away_from_zero(rate*amount) in the contract's decimal
    arithmetic: the bid fee demanded at creation (create_bid_inv: fee = calc, in the quote denomination, or no fee
@@ -63,6 +63,60 @@ Proof.
 Qed.
 Print Assumptions C09_fee_fully_released_at_close.
 
-(* NOT proved here: that F x is the nearest unit to fee*x/quote (lower unit only on an exact half) outside the class
-   K_prorata, and monotonicity of F; see DESIGN.md ("partial").  The implementation-side oracle of the correspondence
-   run evaluates that statement in exact rational arithmetic on every bid of every generated state. *)
+(* (iii, closed form) F is a closed function of the 28-digit ratio and the fee, for every bid whose quote and fee fit
+   96 bits (every bid of a reachable state does: bid_ok):
+     F x = Hc (R28 x quote * fee),   R28 x Q = round_half_even (x * 10^28 / Q),
+     Hc V = round_half_up (G V / 10^28),  G = the 96-bit rounding of Buf24::rescale (ProRata.G);
+   this is what dec_div_int, dec_mul, round_dp and to_u128 compute together, representation included. *)
+Theorem C09_fee_closed_form : forall b fee x,
+  0 < c_amt (b_quote b) -> c_amt (b_quote b) < B96 -> fee < B96 -> x <= c_amt (b_quote b) ->
+  fee_for_rest b fee x = Ok (Hc (R28 x (c_amt (b_quote b)) * fee)).
+Proof. exact fee_for_rest_canon. Qed.
+Print Assumptions C09_fee_closed_form.
+
+(* F is monotone: a larger unspent quote never keeps less fee in escrow; consequently the fee released by a fill
+   grows with the amount it spends (no hypothesis on the sizes involved) *)
+Theorem C09_fee_monotone : forall b fee x1 x2 k1 k2,
+  0 < c_amt (b_quote b) -> c_amt (b_quote b) < B96 -> fee < B96 -> x1 <= x2 -> x2 <= c_amt (b_quote b) ->
+  fee_for_rest b fee x1 = Ok k1 -> fee_for_rest b fee x2 = Ok k2 -> k1 <= k2.
+Proof. exact fee_for_rest_mono. Qed.
+Print Assumptions C09_fee_monotone.
+Theorem C09_released_fee_monotone : forall c k b g1 g2 f1 f2,
+  bid_ok c k b -> calculate_fee b g1 = Ok f1 -> calculate_fee b g2 = Ok f2 -> g1 <= g2 -> opt_amt f1 <= opt_amt f2.
+Proof. intros c k b g1 g2 f1 f2 H. apply (bid_ok_fee_mono c k b H). Qed.
+Print Assumptions C09_released_fee_monotone.
+
+(* (iii, accuracy) outside the class K_prorata -- precisely: whenever 13 * quote * fee < 10^28 -- F x is a nearest
+   whole unit to the exact pro-rata share fee * x / quote:  | F x - fee*x/quote | <= 1/2  (either neighbour on an exact
+   half).  K_prorata (known_findings.json) lies in the complement 13 * quote * fee >= 10^28. *)
+Theorem C09_fee_nearest_unit : forall b fee x F,
+  0 < c_amt (b_quote b) -> c_amt (b_quote b) < B96 -> fee < B96 -> x <= c_amt (b_quote b) ->
+  13 * c_amt (b_quote b) * fee < E28 ->
+  fee_for_rest b fee x = Ok F ->
+  2 * F * c_amt (b_quote b) <= 2 * (x * fee) + c_amt (b_quote b) /\
+  2 * (x * fee) <= 2 * F * c_amt (b_quote b) + c_amt (b_quote b).
+Proof. exact fee_for_rest_nearest. Qed.
+Print Assumptions C09_fee_nearest_unit.
+
+(* hence: in every state reachable by a clean history the fee escrowed with an open bid is a nearest unit to
+   fee * unspent / quote *)
+Theorem C09_held_is_nearest_unit : forall e m st0 r0 evs c k b f,
+  env_version_ok e -> instantiate e empty_state m = Ok (st0, r0) -> clean_run st0 evs ->
+  st_cfg (run st0 evs) = Some c -> lookup k (st_bids (run st0 evs)) = Some (SlotV3 b) -> b_fee b = Some f ->
+  13 * c_amt (b_quote b) * c_amt f < E28 ->
+  2 * held b * c_amt (b_quote b) <= 2 * (unspent b * c_amt f) + c_amt (b_quote b) /\
+  2 * (unspent b * c_amt f) <= 2 * held b * c_amt (b_quote b) + c_amt (b_quote b).
+Proof.
+  intros e m st0 r0 evs c k b f He Hi Hc Hcfg Hl Hf Hsmall.
+  pose proof (Inv_reachable e m st0 r0 evs He Hi Hc) as [_ HB].
+  destruct (inv_bids _ HB c k _ Hcfg Hl) as (b0 & Hb0 & Hok). injection Hb0 as <-.
+  pose proof Hok as (_ & _ & _ & _ & Hab & Haq & _ & Hq96 & (p & (_ & _ & Hmnz & _) & HQ & _) & Hfee).
+  rewrite Hf in Hfee. destruct Hfee as (_ & _ & Hf96 & HF).
+  assert (HQ0 : 0 < c_amt (b_quote b)).
+  { destruct (N.eq_dec (c_amt (b_quote b)) 0) as [Hz|]; [|lia]. rewrite Hz in HQ. nia. }
+  eapply fee_for_rest_nearest; eauto. unfold unspent. lia.
+Qed.
+Print Assumptions C09_held_is_nearest_unit.
+
+(* The implementation-side oracle of the correspondence run evaluates the same statement in exact rational arithmetic
+   on every bid of every generated state (and flags the class K_prorata by name). *)
